@@ -85,7 +85,7 @@ def run(ctx):
             where(mt, lp[0].stmt))
 
     # ---- R2 removal only on full refresh
-    r = ctx.rule("R2", "clients are closed only on a full refresh with brokers; existing clients get the entry of their own id", 3, "B")
+    r = ctx.rule("R2", "clients are closed only on a full refresh with brokers; existing clients get the entry of their own id", 4, "B")
     ub = ctx.func(KC + "._update_brokers")
     cu = ctx.cfg(ub)
     fu = ctx.facts(ub)
@@ -109,7 +109,30 @@ def run(ctx):
         loops = [x for x in walk_body_shallow(ub.body) if isinstance(x, ast.For) and um[0] in list(ast.walk(x))]
         okm = len(loops) == 1 and isinstance(loops[0].target, ast.Tuple) and norm(um[0].func.value.slice) == unparse(loops[0].target.elts[0]) and \
             norm(um[0].args[0]) == unparse(loops[0].target.elts[1]) and norm(loops[0].iter).endswith(".items()")
-    r.check(okm, "%s#own-entry" % ub.qname, "an existing client is updated with another broker's address", where(ub, ub.node))
+    if okm:
+        un = cu.containing(um[0])[0]
+        deps = sorted(norm(t.stmt.test) for t, lab in cu.control_deps_transitive(un.id) if t.kind == "test")
+        kv = unparse(loops[0].target.elts[0])
+        okm = deps in (["%s not in self.clients" % kv], ["%s in self.clients" % kv])
+    r.check(okm, "%s#own-entry" % ub.qname, "an existing client is not updated with its own entry whenever that client exists "
+            "(conditions: %s)" % (deps if um else "?"), where(ub, ub.node),
+            "broker re-addressed under the same id: the `unchanged` test compares with a cache that was updated two lines earlier, the "
+            "client never learns the new address and reconnects to the old one for ever")
+    lm = ctx.func(KC + ".load_metadata_for_topics")
+    hresp = next((g for g in lm.nested.values() if calls_in(g, "_merge_topic_metadata")), None)
+    okf = hresp is not None
+    if okf:
+        mc = calls_in(hresp, "_merge_topic_metadata")[0]
+        flag = kwarg(mc, "fetched_all_topics", 2)
+        assigned_inside = {n.id for x in ast.walk(hresp.node) for n in ([x] if isinstance(x, ast.Name) and isinstance(x.ctx, ast.Store) else [])}
+        used = {n.id for n in ast.walk(flag) if isinstance(n, ast.Name)} if flag is not None else set()
+        okf = flag is not None and not (used & assigned_inside)
+        if okf and isinstance(flag, ast.Name):
+            d = [x for x in walk_body_shallow(lm.body) if isinstance(x, ast.Assign) and unparse(x.targets[0]) == flag.id]
+            okf = len(d) == 1 and norm(d[0].value) == "not %s" % lm.node.args.vararg.arg if lm.node.args.vararg else False
+    r.check(okf, "%s#full-refresh-flag" % lm.qname, "the `all topics were fetched` flag is not computed from the caller's topic arguments "
+            "(it reads a name re-bound inside the response handler)", where(lm, lm.node),
+            "full refresh of a cluster with at least one topic: brokers missing from the reply are never closed")
 
     # ---- R3 invalidation table
     r = ctx.rule("R3", "stale-routing errors reset the matching cache before any re-raise; failed sends reset everything; "
@@ -202,6 +225,12 @@ MUTANTS = [
     {"id": "prune-on-partial", "file": "client.py", "old": "        if remove:\n            to_close", "new": "        if True:\n            to_close", "expect": "C08.R2"},
     {"id": "remove-flag-always", "file": "client.py", "old": "ok_to_remove = fetched_all_topics and len(brokers)", "new": "ok_to_remove = len(brokers)",
      "expect": "C08.R2"},
+    {"id": "update-skipped-when-cache-equal", "file": "client.py", "old": "            if node_id not in self.clients:\n                continue\n            self.clients[node_id].updateMetadata(broker_meta)",
+     "new": "            if node_id not in self.clients or self._brokers[node_id] == broker_meta:\n                continue\n            self.clients[node_id].updateMetadata(broker_meta)",
+     "expect": "C08.R2", "note": "seeded C07-3 / C08-5"},
+    {"id": "full-refresh-flag-rebound", "file": "client.py",
+     "old": "            self._merge_topic_metadata(brokers, topics, fetch_all_metadata)\n            return True",
+     "new": "            self._merge_topic_metadata(brokers, topics, fetched_all_topics=not topics)\n            return True", "expect": "C08.R2", "note": "seeded C08-4"},
     {"id": "notleader-no-reset", "file": "client.py", "old": "                self.reset_topic_metadata(resp.topic)\n                if fail_on_error:",
      "new": "                if fail_on_error:", "expect": "C08.R3"},
     {"id": "notleader-reset-after-raise", "file": "client.py",
